@@ -6,18 +6,26 @@ CONSTANTS Senders,             \* senders in the Security Individual Address Tab
           MaxSeq
 VARIABLES lastValid,           \* [Senders -> last valid sequence number]
           delivered,           \* history of delivered frames <<sender, seq>>
-          lastSent             \* last sequence number used for sending (-1: none yet), "next" is any greater one
-vars == <<lastValid, delivered, lastSent>>
+          lastSent,            \* last sequence number taken for sending (-1: none yet), "next" is any greater one
+          wire                 \* the numbers of the secured frames that left the instance, in order
+vars == <<lastValid, delivered, lastSent, wire>>
 \* a frame from sender s (0 = not in the table) with number n; ok = it verifies (genuine MAC, right key, untampered)
 Accept(s, n, ok) == s \in Senders /\ n > lastValid[s] /\ ok
 Recv(s, n, ok) ==
   /\ IF Accept(s, n, ok)
        THEN lastValid' = [lastValid EXCEPT ![s] = n] /\ delivered' = Append(delivered, <<s, n>>)
        ELSE UNCHANGED <<lastValid, delivered>>         \* in particular a frame failing verification does not advance the counter
-  /\ UNCHANGED lastSent
-SendOk(n) == n > lastSent /\ n <= MaxSeq /\ lastSent' = n /\ UNCHANGED <<lastValid, delivered>>
+  /\ UNCHANGED <<lastSent, wire>>
+\* CEMIHandler.send_telegram: the frame is secured with the next number (get_sequence_number), then handed to the interface.
+\* The interface may fail after the frame left (a tunnel that gets no acknowledgement raises, the frame has been on the bus)
+\* - that is still SendOk - or before (not connected, frame not serialisable): SendDropped, the number is used up or not, never reused
+\* for a frame that left.
+SendOk(n) == n > lastSent /\ n <= MaxSeq /\ lastSent' = n /\ wire' = Append(wire, n) /\ UNCHANGED <<lastValid, delivered>>
+SendDropped(n) == n >= lastSent /\ n <= MaxSeq /\ lastSent' = n /\ UNCHANGED <<lastValid, delivered, wire>>
 SendExhausted == lastSent >= MaxSeq /\ UNCHANGED vars
 \* ---- C17 over the history
 DeliveredIncreasing == \A a, b \in 1..Len(delivered) : (a < b /\ delivered[a][1] = delivered[b][1]) => delivered[a][2] < delivered[b][2]
+WireIncreasing == \A a, b \in 1..Len(wire) : a < b => wire[a] < wire[b]
+WireWithin48Bits == \A a \in 1..Len(wire) : wire[a] <= MaxSeq
 OnlyKnownSenders == \A a \in 1..Len(delivered) : delivered[a][1] \in Senders
 =============================================================================
